@@ -201,6 +201,18 @@ class TableHooks(QHooks):
             self.returns.append((dict((k, g1v(v)) for k, v in E.store.items() if k.startswith('M[') or k.startswith('$')), g1v(val) if val is not None else None, E.trace.list()))
 
 
+def msgno_norm(fn, v):
+    """msgno()'s answer as a message index or -1: the function may hand back the index itself (refusal -1) or the table entry (refusal: a null pointer)"""
+    if '*' in (fn.f.get('ret') or ''):
+        if v == 0:
+            return -1
+        if isinstance(v, tuple) and v[0] == '&':
+            import re as _re
+            mm = _re.match(r'^M\[(-?\d+)\]$', v[1])
+            return int(mm.group(1)) if mm else v
+    return v
+
+
 class MsgnoHooks(TableHooks):
     def prim_scan_ulong(self, E, x, args):
         up = g1v(args[1])
@@ -214,6 +226,9 @@ class MsgnoHooks(TableHooks):
 class CallerHooks(TableHooks):
     """DELE / LIST / UIDL / TOP: msgno() is an event answering -1 or an index"""
     def prim_msgno(self, E, x, args):
+        fn_ = E.eng.prog.resolve('msgno', x.fn.unit)
+        if fn_ is not None and '*' in (fn_.f.get('ret') or ''):
+            return [Outcome(ret=fs(0), sets={'$msgno': fs(-1)})] + [Outcome(ret=fs(('&', 'M[%d]' % k)), sets={'$msgno': fs(k)}) for k in range(self.NUMM)]
         return [Outcome(ret=fs(-1), sets={'$msgno': fs(-1)})] + [Outcome(ret=fs(k), sets={'$msgno': fs(k)}) for k in range(self.NUMM)]
 
     def prim_scan_ulong(self, E, x, args):
@@ -433,7 +448,7 @@ def popup_sites(db, rep):
 class MsgArgHooks(TableHooks):
     """msgno() on concrete argument strings, with the real scan_ulong() under it"""
     def inline(self, fn, depth):
-        return fn.name == 'scan_ulong' or super().inline(fn, depth)
+        return fn.name == 'scan_ulong' or fn.unit == 'scan_ulong.c' or super().inline(fn, depth)       # and whatever helper it keeps next to it
 
     def materialize_split(self, E, path):
         return None
@@ -467,7 +482,7 @@ def msgno_argument_sites(db, rep):
         e.run(mn, st)
         rep.count_states(e.states, e.transitions)
         n += 1
-        got = sorted({g1v(v) for v in rets}, key=str)
+        got = sorted({msgno_norm(mn, g1v(v)) for v in rets}, key=str)
         head = arg.split(b' ')[0]
         valid = head.isdigit() and 1 <= int(head) <= 3 and (arg == head or arg[len(head):len(head) + 1] == b' ')
         want = [int(head) - 1] if valid else [-1]
@@ -521,6 +536,7 @@ def run(ctx):
     bad = []
     seen_in = set()
     for store, ret, tr in MH.returns:
+        ret = msgno_norm(mn, ret)
         inp = store.get('$in')
         seen_in.add(inp)
         valid = isinstance(inp, int) and 1 <= inp <= 3
